@@ -146,7 +146,13 @@ pub fn configs(tier: Tier) -> Vec<(PCfg, Plan)> {
             } else {
                 Plan { tree_depth: if dynamic { 5 } else { 6 }, finish_prefixes: false, frontier: if dynamic { Some((250, 8)) } else { None }, split: if dynamic { 5 } else { 2 } }
             };
-            let lens = if quick && dynamic { vec![1, 5, 9] } else { vec![1, 2, 5, 9] };
+            let lens = if !(quick && dynamic) {
+                vec![1, 2, 5, 9]
+            } else if strategy == Strategy::BestFit {
+                vec![1, 5, 9]
+            } else {
+                vec![5, 9]
+            };
             v.push((PCfg { strategy, elem, lens }, plan));
         }
     }
@@ -262,11 +268,32 @@ fn apply_t<T: Elem>(p: &mut Port<T>, cfg: &PCfg, queue: &mut VecDeque<(u64, usiz
     check_held(p, held, after)
 }
 
+/// Panic messages of the repository dump whole objects (addresses, unique ids); the engine compares
+/// the replay output textually, so only the digit-free beginning of the message is kept.
+pub fn stable_panic_message(p: Box<dyn std::any::Any + Send>) -> String {
+    let msg = p.downcast_ref::<&str>().map(|s| s.to_string()).or(p.downcast_ref::<String>().cloned()).unwrap_or_default();
+    let tail = msg.rsplit("} ").next().unwrap_or(&msg).to_string();
+    let mut out: String = tail.chars().filter(|c| !c.is_ascii_digit()).collect();
+    out.truncate(300);
+    out
+}
+
 pub fn apply(s: &mut PSys, op: &POp) -> Result<(), Fail> {
-    let PSys { cfg, ports, queue, held, next_id, max_len_sent } = s;
-    match ports {
-        Ports::U8(p) => apply_t(p, cfg, queue, held, next_id, max_len_sent, op),
-        Ports::U64(p) => apply_t(p, cfg, queue, held, next_id, max_len_sent, op),
+    let what = match op {
+        POp::Send(_) => "loan_slice + send",
+        POp::Receive => "receive",
+        POp::DropHeld(_) => "drop sample",
+    };
+    let r = std::panic::catch_unwind(std::panic::AssertUnwindSafe(|| {
+        let PSys { cfg, ports, queue, held, next_id, max_len_sent } = s;
+        match ports {
+            Ports::U8(p) => apply_t(p, cfg, queue, held, next_id, max_len_sent, op),
+            Ports::U64(p) => apply_t(p, cfg, queue, held, next_id, max_len_sent, op),
+        }
+    }));
+    match r {
+        Ok(r) => r,
+        Err(p) => Err(Fail::new("panic", format!("port {what}"), stable_panic_message(p))),
     }
 }
 
